@@ -263,6 +263,22 @@ def generate(rng, tier):
         k = rng.randint(1, 3)
         yield {'op': 'shape', 'family': fam, 'prof': [[i, str(k)] for i in range(m)], 'n': rng.randint(1, m - 1),
                '_tags': ['dist', 'all_equal']}
+    # directed: a WIDE tie at the cut - four to six candidates on exactly the same count contesting three or more places (one Tie object
+    # repeated three times and more), with some candidates above and below: the multi-place tie paths of every rule on party totals
+    # (Tie.break_by_list of the list-order tie-breaker advances through the tied group once per contested place)
+    for f in F:
+        if f.vtype == 'simple' and f.n_seats and not f.small_weights:
+            for t in range(8 if tier == 'quick' else 120):
+                tied = rng.randint(4, 6)
+                above = rng.randint(0, 2)
+                below = rng.randint(0, 2)
+                v = rng.randint(2, 9)
+                vals = [v + rng.randint(1, 5) for _ in range(above)] + [v] * tied + [rng.randint(0, v - 1) for _ in range(below)]
+                rng.shuffle(vals)
+                places = rng.randint(3, tied - 1)
+                w = rng.choice([1, 1, 10 ** 18 + 3, Fraction(1, 3)])
+                yield {'op': 'shape', 'family': f.name, 'prof': [[i, num_str(x * w)] for i, x in enumerate(vals)], 'n': above + places,
+                       '_tags': [f.kind, 'wide_tie_three_or_more_places']}
     # directed: the withdrawal loop of on_overaward='subtract' run SEVERAL times over the same tied group (a low quota over-awards by
     # two or more seats while the smallest remainders are exactly equal): the tie entry is created, decremented and deleted again
     for fam in ['lr_imperiali_subtract', 'qd_imperiali_subtract', 'lr_hagenbach_bischoff_subtract']:
